@@ -160,6 +160,10 @@ func (hr *historyRepository) recordMiniblock(blockHeaderHash []byte, blockHeader
 	// the miniblock might have been recorded before, as part of a block that was dropped in the meantime.
 	// This has to be read before saving the new epoch of the miniblock
 	previousMetadata, errPrevious := hr.getMiniblockMetadataByMiniblockHash(miniblockHash)
+	if errPrevious == nil {
+		// the block that contained the miniblock so far is replaced, so it has to be recorded again if it comes back
+		hr.forgetRecentlyInsertedMiniblockMetadata(miniblockHash, previousMetadata.HeaderHash, previousMetadata.Epoch)
+	}
 
 	err = hr.epochByHashIndex.saveEpochByHash(miniblockHash, epoch)
 	if err != nil {
@@ -227,6 +231,11 @@ func (hr *historyRepository) buildKeyOfDeduplicationCacheForInsertMiniblockMetad
 func (hr *historyRepository) markMiniblockMetadataAsRecentlyInserted(miniblockHash []byte, blockHeaderHash []byte, epoch uint32) {
 	key := hr.buildKeyOfDeduplicationCacheForInsertMiniblockMetadata(miniblockHash, blockHeaderHash, epoch)
 	_ = hr.deduplicationCacheForInsertMiniblockMetadata.Put(key, nil, 0)
+}
+
+func (hr *historyRepository) forgetRecentlyInsertedMiniblockMetadata(miniblockHash []byte, blockHeaderHash []byte, epoch uint32) {
+	key := hr.buildKeyOfDeduplicationCacheForInsertMiniblockMetadata(miniblockHash, blockHeaderHash, epoch)
+	hr.deduplicationCacheForInsertMiniblockMetadata.Remove(key)
 }
 
 // GetMiniblockMetadataByTxHash will return a history transaction for the given hash from storage
